@@ -162,6 +162,7 @@ def edits() -> st.SearchStrategy:
         st.tuples(st.just("insert"), st.integers(0, 40), new_stmt),
         st.tuples(st.just("insert"), st.integers(0, 40), new_stmt),
         st.tuples(st.just("delete"), st.integers(0, 40)),
+        st.tuples(st.just("move"), st.integers(0, 40), st.one_of(st.integers(0, 40), st.just(-1))),  # a statement to another place (-1: the end)
         st.tuples(st.just("retype"), st.integers(0, 40), any_type()),
         st.tuples(st.just("retype"), st.integers(0, 40), any_type()),
         st.tuples(st.just("rename"), st.integers(0, 40), names),
@@ -199,6 +200,9 @@ def apply_edit(model: typing.Any, e: typing.Any) -> typing.Any:
         s.insert(e[1] % (len(s) + 1), copy.deepcopy(e[2]))
     elif kind == "delete" and s:
         del s[e[1] % len(s)]
+    elif kind == "move" and s:
+        x = s.pop(e[1] % len(s))
+        s.insert(len(s) if e[2] < 0 else e[2] % (len(s) + 1), x)
     elif kind == "retype" and attrs:
         i = attrs[e[1] % len(attrs)]
         s[i]["type"] = copy.deepcopy(e[2])
